@@ -8,6 +8,7 @@ import (
 	"os"
 	"path/filepath"
 	"reflect"
+	"strings"
 
 	"github.com/rkosegi/yaml-toolkit/dom"
 	"github.com/rkosegi/yaml-toolkit/k8s"
@@ -59,6 +60,57 @@ func c12ExecutorReuse(r *rand.Rand, idx int) Case {
 		fin, _ = nodeToAny(d).(map[string]any)
 		if fin["after"] != nil {
 			fail = append(fail, fmt.Sprintf("steps after a template operation that cannot be parsed were executed: %v", fin))
+		}
+		// conditions read the data as it is when they are evaluated: the caller changes its document between two runs of
+		// one executor; arguments of a call are gone for the conditions that follow it
+		modes, e5 := specFromYaml("steps:\n  on:\n    order: 1\n    when: '{{ eq .mode \"on\" }}'\n    set:\n      data: {ranOn: true}\n  off:\n    order: 2\n    when: '{{ ne .mode \"on\" }}'\n    set:\n      data: {ranOff: true}\n  last:\n    order: 3\n    when: '{{ eq .mode \"off\" }}'\n    log:\n      message: 'mode={{ .mode }}'\n")
+		calls, e6 := specFromYaml("steps:\n  d:\n    order: 1\n    define:\n      name: f\n      action:\n        set:\n          data: {called: true}\n  c:\n    order: 2\n    call:\n      name: f\n      args: {x: 1}\n  after:\n    order: 3\n    when: '{{ hasKey . \"args\" }}'\n    set:\n      data: {sawArgs: true}\n  probe:\n    order: 4\n    when: '{{ not (hasKey . \"args\") }}'\n    set:\n      data: {argsGone: true}\n")
+		if e5 != nil || e6 != nil {
+			fail = append(fail, fmt.Sprint("probe trees do not decode: ", e5, e6))
+			return
+		}
+		d2 := anyToContainer(map[string]any{"mode": "off"})
+		ex2 := pipeline.New(pipeline.WithData(d2))
+		if err := ex2.Execute(modes); err != nil {
+			fail = append(fail, fmt.Sprint("conditional run failed: ", err))
+		}
+		d2.AddValue("mode", dom.LeafNode("on")) // the caller's own document
+		d2.Remove("ranOff")
+		if err := ex2.Execute(modes); err != nil {
+			fail = append(fail, fmt.Sprint("second conditional run failed: ", err))
+		}
+		if fin2, _ := nodeToAny(d2).(map[string]any); fin2["ranOn"] != true || fin2["ranOff"] != nil {
+			fail = append(fail, fmt.Sprintf("the caller set mode=on between two runs of one executor; the second run's conditions saw something else: %v", fin2))
+		}
+		// message text is rendered wherever its actions stand: also behind braces that belong to the plain text
+		brace, e7 := specFromYaml("steps:\n  l:\n    order: 1\n    log:\n      message: 'payload={\"user\":{\"id\":7}} status={{ .status }}'\n  a:\n    order: 2\n    abort:\n      message: 'rejected {\"limits\":{\"cpu\":2}} reason={{ .reason }}'\n")
+		if e7 != nil {
+			fail = append(fail, fmt.Sprint("probe tree does not decode: ", e7))
+			return
+		}
+		lst := &evListener{}
+		errB := pipeline.New(pipeline.WithListener(lst), pipeline.WithData(anyToContainer(map[string]any{"status": "ok", "reason": "quota"}))).Execute(brace)
+		if errB == nil || !strings.Contains(errB.Error(), "reason=quota") || strings.Contains(errB.Error(), "{{") {
+			fail = append(fail, fmt.Sprintf("abort message with braces in its plain text: the run returned %v", errB))
+		}
+		sawLog := false
+		for _, e := range lst.evs {
+			if strings.Contains(e.String(), "status=ok") {
+				sawLog = true
+			}
+			if strings.Contains(e.String(), "status={{") {
+				fail = append(fail, "log message with braces in its plain text was not rendered: "+e.String())
+			}
+		}
+		if !sawLog {
+			fail = append(fail, fmt.Sprintf("the rendered log message did not reach the listener: %v", evStrings(lst.evs)))
+		}
+		d3 := anyToContainer(map[string]any{})
+		if err := pipeline.New(pipeline.WithData(d3)).Execute(calls); err != nil {
+			fail = append(fail, fmt.Sprint("define/call run failed: ", err))
+		}
+		if fin3, _ := nodeToAny(d3).(map[string]any); fin3["called"] != true || fin3["sawArgs"] != nil || fin3["argsGone"] != true {
+			fail = append(fail, fmt.Sprintf("conditions after a call still see its arguments (or the call did not run): %v", fin3))
 		}
 	})
 	if pn != "" {
